@@ -90,7 +90,10 @@ ProjOK(cs) == ("v" \in cs) => ("a" \in cs)
 NCalcs(h) == Cardinality({i \in DOMAIN h : h[i].f = "un" /\ h[i].op.o = "calc"})
 FreshTag(h) == IF NCalcs(h) = 0 THEN "c" ELSE "d"
 
+\* user-defined operations of the extension API (RA_Ops!Cust); a configuration switches them on
+CustomOn == FALSE
 UnaryMenu(cols, h) ==
+    (IF CustomOn THEN {c \in {Cust(f) : f \in CustNames} : ReqOp(c) \subseteq cols} ELSE {}) \cup
     (IF NCalcs(h) < 2 THEN {Calc(FreshTag(h), e) : e \in {x \in AllCalcExprs : ReqE(x) \subseteq cols}} ELSE {})
       \cup {Proj(cs) : cs \in {x \in SUBSET cols : ProjOK(x)}}
       \cup {Sel(p) : p \in {x \in AllPreds : ReqP(x) \subseteq cols}}
